@@ -647,8 +647,43 @@ class CExec:
             raise CUnsupported('for-cond variable')
         bound = self.ev(cond['inner'][1], st)
         op = cond['opcode']
-        if inc.get('kind') != 'UnaryOperator' or inc['opcode'] not in ('++', '--'):
+        incop = None
+        if inc.get('kind') == 'UnaryOperator' and inc['opcode'] in ('++', '--'):
+            incop = inc['opcode']
+        elif inc.get('kind') == 'CompoundAssignOperator' and inc.get('opcode') in ('+=', '-='):
+            # v += 1 / v -= 1 : the same unit step
+            tgt = inc['inner'][0]
+            while tgt['kind'] in ('ParenExpr', 'ImplicitCastExpr'):
+                tgt = tgt['inner'][0]
+            stepv = self.ev(inc['inner'][1], st)
+            one = z3.simplify(stepv == 1) if isinstance(stepv, z3.ExprRef) else (stepv == 1)
+            if tgt.get('referencedDecl', {}).get('name') == var and (one is True or (isinstance(one, z3.ExprRef) and z3.is_true(one))):
+                incop = '++' if inc['opcode'] == '+=' else '--'
+        elif inc.get('kind') == 'BinaryOperator' and inc.get('opcode') == '=':
+            # v = v + 1
+            tgt = inc['inner'][0]
+            while tgt['kind'] in ('ParenExpr', 'ImplicitCastExpr'):
+                tgt = tgt['inner'][0]
+            if tgt.get('referencedDecl', {}).get('name') == var and var in st.env:
+                cur = st.env[var] if isinstance(st.env.get(var), z3.ExprRef) else None
+                probe = z3.FreshConst(IntS, var)
+                saved = st.env.get(var)
+                st.env[var] = probe
+                try:
+                    rhs = self.ev(inc['inner'][1], st)
+                finally:
+                    if saved is None:
+                        st.env.pop(var, None)
+                    else:
+                        st.env[var] = saved
+                if isinstance(rhs, z3.ExprRef):
+                    if z3.is_true(z3.simplify(rhs == probe + 1)):
+                        incop = '++'
+                    elif z3.is_true(z3.simplify(rhs == probe - 1)):
+                        incop = '--'
+        if incop is None:
             raise CUnsupported('for-inc')
+        inc = dict(opcode=incop)
         if inc['opcode'] == '++':
             if op == '<':
                 return var, lo, bound, 1, body
